@@ -442,6 +442,14 @@ func randomScenario(prop string, rng *rand.Rand) *prodScenario {
 			sc.Interceptors = append(sc.Interceptors, icSpec{kinds[rng.Intn(len(kinds))]})
 		}
 		// mutating interceptors need byte values; all our values are ByteEncoder
+		// tombstones: messages without a value (the id travels in the key)
+		if rng.Intn(4) == 0 && len(sc.Msgs) > 0 {
+			for k := 0; k < 1+rng.Intn(3); k++ {
+				ms := sc.Msgs[rng.Intn(len(sc.Msgs))]
+				ms.Key, ms.KeyNil = []byte(fmt.Sprintf("%d:tomb", ms.ID)), false
+				ms.Value, ms.ValNil = nil, true
+			}
+		}
 		// a third of the scenarios submit messages the producer must refuse (larger than
 		// MaxMessageBytes): they too are submitted messages and pass the chain once
 		if rng.Intn(3) == 0 && len(sc.Msgs) > 0 && sc.MaxMessageBytes == 0 {
